@@ -20,6 +20,7 @@ package health
 
 //@ func NewCircuitBreaker
 //@   property C08
+//@   safety
 //@   ensures res != nil && fresh(res) && res.failureThreshold == 3 && res.timeout == 30000000000
 //@   ensures forall k string :: !xhas(res.endpoints, k)
 
@@ -29,6 +30,7 @@ package health
 
 //@ func (cb *CircuitBreaker) RecordFailure
 //@   property C08 C07
+//@   safety
 //@   modifies cb.endpoints[all], circuitState.failures, circuitState.lastFailure, circuitState.lastAttempt, circuitState.isOpen
 //@   ensures xhas(cb.endpoints, endpointURL)
 //@   ensures old(xhas(cb.endpoints, endpointURL)) ==> xget(cb.endpoints, endpointURL).failures == old(xget(cb.endpoints, endpointURL).failures) + 1
@@ -39,12 +41,14 @@ package health
 
 //@ func (cb *CircuitBreaker) RecordSuccess
 //@   property C08 C07
+//@   safety
 //@   modifies circuitState.failures, circuitState.lastAttempt, circuitState.isOpen
 //@   ensures xhas(cb.endpoints, endpointURL) ==> xget(cb.endpoints, endpointURL).failures == 0 && xget(cb.endpoints, endpointURL).isOpen == 0 && xget(cb.endpoints, endpointURL).lastAttempt == 0
 //@   ensures forall p *circuitState :: p != xget(cb.endpoints, endpointURL) || !xhas(cb.endpoints, endpointURL) ==> p.failures == old(p.failures) && p.isOpen == old(p.isOpen) && p.lastAttempt == old(p.lastAttempt)
 
 //@ func (cb *CircuitBreaker) IsOpen
 //@   property C08 C07
+//@   safety
 //@   replay health_isopen : now ; xhas(cb.endpoints, endpointURL) ; xget(cb.endpoints, endpointURL).failures ; xget(cb.endpoints, endpointURL).lastFailure ; xget(cb.endpoints, endpointURL).lastAttempt ; xget(cb.endpoints, endpointURL).isOpen
 //@   modifies circuitState.lastAttempt
 //@   ensures !xhas(cb.endpoints, endpointURL) ==> res == false
@@ -88,6 +92,7 @@ package health
 
 //@ func calculateBackoff
 //@   property C07
+//@   safety
 //@   replay health_calculatebackoff : endpoint.CheckInterval ; endpoint.BackoffMultiplier ; success
 //@   requires endpoint != nil
 //@   ensures success ==> res0 == endpoint.CheckInterval && res1 == 1
@@ -104,14 +109,17 @@ package health
 
 //@ func calculateBackoffDelay
 //@   property C07
+//@   safety
 //@   ensures true
 
 //@ func shouldRetry
 //@   property C07
+//@   safety
 //@   ensures true
 
 //@ func injectDefaultHeaders
 //@   property C07
+//@   safety
 //@   requires req != nil && req.Header != nil
 //@   modifies req.Header[all]
 //@   ensures res == req
